@@ -2105,6 +2105,11 @@ def c18_cli(ctx, res):
         "after_push": "ld r1 m3\nand r2 r2 #0\npush r1\nbrz good\nlea r0 bad\nputs\nhalt\ngood lea r0 ok\nputs\nhalt\nm3 .fill #-3\nbad .stringz \"BAD\"\nok .stringz \"OK\"\n",
         "after_call_and_rets": "ld r1 m3\ncall f\nbrn good\nlea r0 bad\nputs\nhalt\ngood lea r0 ok\nputs\nhalt\nf brn g2\nlea r0 bad\nputs\ng2 rets\nm3 .fill #-3\nbad .stringz \"BAD\"\nok .stringz \"OK\"\n",
         "pop_of_zero_after_negative": "and r1 r1 #0\npush r1\nld r2 m3\npop r3\nbrn good\nlea r0 bad\nputs\nhalt\ngood lea r0 ok\nputs\nhalt\nm3 .fill #-3\nbad .stringz \"BAD\"\nok .stringz \"OK\"\n"}
+    # a stack that starts at address 0: the first push goes to xFFFF and the pop brings the pointer back
+    cc_progs["stack_pointer_zero"] = ("and r7 r7 #0\nld r1 v\npush r1\npop r2\nadd r3 r7 #0\nbrnp bad2\nadd r2 r2 #-16\nadd r2 r2 #-16\nadd r2 r2 #-1\nbrnp bad2\nlea r0 ok\nputs\nhalt\n"
+                                      "bad2 lea r0 bad\nputs\nhalt\nv .fill #33\nbad .stringz \"BAD\"\nok .stringz \"OK\"\n")
+    cc_progs["call_from_stack_pointer_zero"] = ("and r7 r7 #0\ncall f\nadd r3 r7 #0\nbrnp bad2\nlea r0 ok\nputs\nhalt\nf add r4 r7 #1\nbrnp bad2\nrets\n"
+                                                "bad2 lea r0 bad\nputs\nhalt\nbad .stringz \"BAD\"\nok .stringz \"OK\"\n")
     for name, src in cc_progs.items():
         _write(os.path.join(d, "cc_%s.asm" % name), src)
         for sub, extra in (("run", ["--minimal"]), ("debug", ["--minimal", "--command", "step into 3;continue"])):
